@@ -426,6 +426,8 @@ def gen_zone_history(rnd, sid, focus="C06"):
             g.op_now(g.now[0], g.now[1] + rnd.choice([1, 1, 3, 40]))
             g.op_send(rnd.choice(size_choices(L, minlen)))
             if rnd.random() < 0.15:
+                # (the clock moves between any two writes after a zone change: a flush is a write too)
+                g.op_now(g.now[0], g.now[1] + rnd.choice([1, 2]))
                 g.op_flush()
     if legs > 1:
         s.tags.add("zone-return")
